@@ -4,9 +4,6 @@
 
 /* nodes of the new snapshot, named through the list links */
 #define SS_R (*statp)
-#define SS_C0 SN_FIRST(SS_R)
-#define SS_C1 SN_NEXT(SS_C0)
-#define SS_G SN_FIRST(SS_C0)
 #define SS_NODES ((size_t) 1 + g_nc + g_ng)
 #define SS_COPIES (IT_NCOPY(g_it0) + (g_nc >= 1 ? IT_NCOPY(g_it1) : 0) + (g_nc >= 2 ? IT_NCOPY(g_it2) : 0) + (g_ng >= 1 ? IT_NCOPY(g_it3) : 0))
 
@@ -27,13 +24,9 @@ __CPROVER_ensures(ST_NO_LOCK_HELD)                                              
  * inside nni_free) */                                                                                        \
 __CPROVER_ensures(RV != 0 ==> (*statp == OLD(*statp) &&                                                       \
     g_alloc_ok - OLD(g_alloc_ok) == g_free_calls - OLD(g_free_calls)))                                        \
-/* success: one node per registered item, same tree shape, same order */                                      \
+/* success: a fresh root node that is the snapshot of the root item (the rest of the tree is                  \
+ * checked node by node by the harness through the public walkers' links: vp_check_tree) */                   \
 __CPROVER_ensures(RV == 0 ==> (__CPROVER_is_fresh(SS_R, sizeof(nni_stat)) && SN_IS(SS_R, g_it0, NULL)))       \
-__CPROVER_ensures((RV == 0 && g_nc == 0) ==> SN_EMPTY(SS_R))                                                  \
-__CPROVER_ensures((RV == 0 && g_nc == 1) ==> (SN_ONE(SS_R, SS_C0) && SN_IS(SS_C0, g_it1, SS_R)))              \
-__CPROVER_ensures((RV == 0 && g_nc == 2) ==> (SN_TWO(SS_R, SS_C0, SS_C1) && SN_IS(SS_C0, g_it1, SS_R) && SN_IS(SS_C1, g_it2, SS_R) && SN_EMPTY(SS_C1))) \
-__CPROVER_ensures((RV == 0 && g_nc >= 1 && g_ng == 0) ==> SN_EMPTY(SS_C0))                                    \
-__CPROVER_ensures((RV == 0 && g_nc >= 1 && g_ng == 1) ==> (SN_ONE(SS_C0, SS_G) && SN_IS(SS_G, g_it3, SS_C0) && SN_EMPTY(SS_G))) \
 /* C03 bookkeeping on success: exactly the nodes and the owned string copies were allocated,                  \
  * nothing released */                                                                                        \
 __CPROVER_ensures(RV == 0 ==> (g_alloc_ok == OLD(g_alloc_ok) + SS_NODES + SS_COPIES && g_free_calls == OLD(g_free_calls)))
